@@ -2,14 +2,14 @@
 (* C16, boundary-operand layer, design side: TLC ENUMERATES the tuples (opcode, operand classes, context) as initial
    states - there are no transitions - and checks on every one of them that the demands of CallFramesBoundary.tla are
    coherent (invariants below).  The dot dump of this run is what harness/adapters/callframes/boundary.go compiles
-   into real programs, one per state.  Ops = the opcodes of this run; the tuples of FullOps are enumerated completely,
-   of the other opcodes a seeded 1/SampleMod sample.  Model = the arithmetic of the bounds check of a hypothetical
+   into real programs, one per state.  Ops = the opcodes of this run; the tuples of FullOps are enumerated completely
+   (of the opcodes in FullData: those that read the data contract with ample gas), of the rest a seeded 1/SampleMod sample.  Model = the arithmetic of the bounds check of a hypothetical
    implementation: "exact" in the design run, every other model is a negative control (TLC must find a tuple on which
    it lets an out-of-bounds copy through: the classes are fine enough to tell it from the exact sum). *)
 EXTENDS CallFramesBoundary
-CONSTANTS Ops, FullOps, SampleMod, SampleSeed, Model
-VARIABLES op, cls, rd, static, gas
-vars == <<op, cls, rd, static, gas>>
+CONSTANTS Ops, FullOps, FullData, SampleMod, SampleSeed, Model
+VARIABLES op, cls, rd, static, gas, stage
+vars == <<op, cls, rd, static, gas, stage>>
 
 \* the sizes of the harness' setup; the code length of a program varies (the trace spec takes it from the run)
 ExtLen(c) == CASE c \in {"D", "dirtyD"} -> 50 [] c \in {"R", "dirtyR"} -> 53 [] c = "self" -> 100 [] OTHER -> 0
@@ -25,7 +25,7 @@ Z == {"0"}
 TuplesOf(o) ==
   CASE o \in Copy3 -> VC \X VC \X VC
     [] o = "EXTCODECOPY" -> XAC \X VC \X VC \X VC
-    [] o \in {"CALLDATALOAD", "MLOAD", "SLOAD", "BLOCKHASH"} -> T1(VC)
+    [] o \in {"CALLDATALOAD", "MLOAD", "SLOAD"} \cup Arith1 -> T1(VC)
     [] o \in {"MSTORE", "MSTORE8", "SSTORE"} -> VC \X WV
     [] o \in {"SHA3", "RETURN", "REVERT", "LOG0"} -> VC \X VC
     [] o = "LOG1" -> VC \X VC \X {"2^256-1"}
@@ -45,6 +45,9 @@ TuplesOf(o) ==
     [] o \in {"BALANCE", "EXTCODESIZE", "SELFDESTRUCT"} -> T1(AC)
     [] o \in Arith2 -> VC \X VC
     [] o \in Arith3 -> VC \X VC \X VC
+\* opcodes with so few tuples that the quick tier enumerates them completely too
+SmallOps == {"JUMP", "JUMPI", "BALANCE", "EXTCODESIZE", "SELFDESTRUCT", "MLOAD", "CALLDATALOAD", "SLOAD", "MSTORE", "MSTORE8", "SSTORE"} \cup Arith1
+QuickFull == Copy3 \cup SmallOps
 \* contexts <<prior call left return data, inside a read-only frame, gas>>
 CtxOf(o) == IF o \in ArithOps THEN {<<FALSE, FALSE, "ample">>, <<TRUE, TRUE, "tiny">>}
             ELSE BOOLEAN \X BOOLEAN \X {"ample", "tiny"}
@@ -58,48 +61,58 @@ Hash(c) == LET h[i \in 0..Len(c)] == IF i = 0 THEN 7 ELSE (h[i - 1] * 31 + Idx[c
 Sampled(o, c, r, s, g) ==
   (Hash(c) + Len(o) * 5 + (IF r THEN 3 ELSE 0) + (IF s THEN 11 ELSE 0) + (IF g = "tiny" THEN 17 ELSE 0) + SampleSeed) % SampleMod = 0
 
-Init == /\ op \in Ops
-        /\ cls \in TuplesOf(op)
+\* (two stages only so that TLC's workers share the enumeration: the initial states fix opcode, context and the class
+\* of the first operand, one step completes the tuple; the tuples are the states with stage = "tuple")
+Init == /\ stage = "head"
+        /\ op \in Ops
         /\ \E x \in CtxOf(op) : rd = x[1] /\ static = x[2] /\ gas = x[3]
-        /\ WellFormed(op, cls, Env(op, cls, rd))
-        /\ (op \in FullOps \/ Sampled(op, cls, rd, static, gas))
-Next == UNCHANGED vars
+        /\ \E h \in {t[1] : t \in TuplesOf(op)} : cls = <<h>>
+Complete ==
+  /\ stage = "head" /\ stage' = "tuple"
+  /\ cls' \in {t \in TuplesOf(op) : t[1] = cls[1]}
+  /\ WellFormed(op, cls', Env(op, cls', rd))
+  /\ (IF op \in FullOps \/ (op \in FullData /\ cls'[1] = "D" /\ gas = "ample") THEN TRUE ELSE Sampled(op, cls', rd, static, gas))
+  /\ UNCHANGED <<op, rd, static, gas>>
+Next == Complete
 Spec == Init /\ [][Next]_vars
+Tuple == stage = "tuple"
 
 \* ------------------------------------------------------------------ the demands are coherent
-TypeOK == WellFormed(op, cls, E) /\ Outcome(op, cls, static, gas, E) \in {"ok", "fail", "any"}
+TypeOK == Tuple => WellFormed(op, cls, E) /\ Outcome(op, cls, static, gas, E) \in {"ok", "fail", "any"}
 \* every memory range of every tuple is either certainly paid for or certainly beyond any gas limit
-RangesDecided == \A r \in Ranges(op, V) : Affordable(End(r)) \/ Unaffordable(End(r))
+RangesDecided == Tuple => \A r \in Ranges(op, V) : Affordable(End(r)) \/ Unaffordable(End(r))
 \* less gas never turns a demanded failure into something else, and demands no success
-TinyNeverBetter == /\ (Outcome(op, cls, static, "tiny", E) = "fail") = (Outcome(op, cls, static, "ample", E) = "fail")
+TinyNeverBetter == Tuple => /\ (Outcome(op, cls, static, "tiny", E) = "fail") = (Outcome(op, cls, static, "ample", E) = "fail")
                    /\ Outcome(op, cls, static, "tiny", E) \in {"fail", "any"}
 \* a read-only frame refuses every state change and otherwise behaves like any other frame
-StaticRefusesWrites == static /\ Writes(op, V) => Outcome(op, cls, static, gas, E) = "fail"
-StaticOnlyAddsFailures == \/ Outcome(op, cls, TRUE, gas, E) = Outcome(op, cls, FALSE, gas, E)
+StaticRefusesWrites == Tuple => ((static /\ Writes(op, V)) => Outcome(op, cls, static, gas, E) = "fail")
+StaticOnlyAddsFailures == Tuple => \/ Outcome(op, cls, TRUE, gas, E) = Outcome(op, cls, FALSE, gas, E)
                           \/ (Writes(op, V) /\ Outcome(op, cls, TRUE, gas, E) = "fail")
 \* return data: out of bounds fails whatever the gas, the memory offset and the frame; in bounds succeeds
 ReturnDataBounds ==
-  op = "RETURNDATACOPY" =>
+  (Tuple /\ op = "RETURNDATACOPY") =>
     /\ ~InBounds(V[2], V[3], E.rdn) => Outcome(op, cls, static, gas, E) = "fail"
     /\ (InBounds(V[2], V[3], E.rdn) /\ MemFine(op, V) /\ gas = "ample") => Outcome(op, cls, static, gas, E) = "ok"
 \* the other copies read zeros beyond the end: the data offset never decides the outcome
 PaddedCopies ==
-  op \in CopyOps \ {"RETURNDATACOPY"} =>
+  (Tuple /\ op \in CopyOps \ {"RETURNDATACOPY"} /\ gas = "ample" /\ ~static) =>
     LET d == IF op = "EXTCODECOPY" THEN 3 ELSE 2 IN
     \A c \in VC : ClassOK(c, BaseN(op, d, E)) => Outcome(op, [cls EXCEPT ![d] = c], static, gas, E) = Outcome(op, cls, static, gas, E)
 \* a range of length 0 touches no memory, wherever it lies
-ZeroLengthIsFree == \A r \in Ranges(op, V) : r[2] = Zero => Affordable(End(r))
+ZeroLengthIsFree == Tuple => \A r \in Ranges(op, V) : r[2] = Zero => Affordable(End(r))
 \* the demanded contents are bytes
 NoData == [j \in 1..128 |-> 0]
 ContentsDefined ==
-  (op \in CopyOps /\ Outcome(op, cls, static, "ample", E) = "ok") =>
+  (Tuple /\ op \in CopyOps /\ gas = "ample" /\ ~static /\ Outcome(op, cls, static, "ample", E) = "ok") =>
      \A i \in 0..(ExpMs(op, V, E) - 1) : CopyMem(op, cls, V, E, NoData, i) \in 0..255
 \* the bounds arithmetic of the implementation model lets through exactly what is in bounds
-ImplBoundsAgree == op = "RETURNDATACOPY" => BoundsModel(Model, V[2], V[3], E.rdn) = InBounds(V[2], V[3], E.rdn)
+ImplBoundsAgree == (Tuple /\ op = "RETURNDATACOPY") => BoundsModel(Model, V[2], V[3], E.rdn) = InBounds(V[2], V[3], E.rdn)
 
 \* the class products contain the pairs whose sum wraps at 2^32, 2^64 and 2^256, landing on both sides of N
 ASSUME \A k \in {2, 4, 16} : \E p \in WrapPairs(k, 40) : LeqD(Low(AddD(Val(p[1], 40), Val(p[2], 40)), k), FromInt(40))
 ASSUME <<"2^64-1", "1">> \in WrapPairs(4, 40) /\ <<"2^64-1", "N+1">> \in WrapPairs(4, 40) /\ <<"2^63", "2^63">> \in WrapPairs(4, 40)
 ASSUME <<"2^32-1", "1">> \in WrapPairs(2, 40) /\ <<"2^256-1", "1">> \in WrapPairs(16, 40) /\ <<"2^255", "2^255">> \in WrapPairs(16, 40)
-ASSUME Ops \subseteq AllOps /\ FullOps \subseteq Ops
+ASSUME <<"2^32", "2^32">> \in ProductWrapPairs(64) /\ <<"2^63", "2^63">> \in ProductWrapPairs(64) /\ <<"2^128", "2^128">> \in ProductWrapPairs(256)
+       /\ <<"2^255", "2^255">> \in ProductWrapPairs(256) /\ <<"2^63", "32">> \in ProductWrapPairs(64)
+ASSUME Ops \subseteq AllOps /\ FullOps \subseteq Ops /\ FullData \subseteq {"EXTCODECOPY"}
 ====
